@@ -127,7 +127,7 @@ def judge(ctx, items, res, driver, case, allow_refusal=False):
             it = items[n - 1] if isinstance(n, int) and 1 <= n <= len(items) else None
             name = it['name'] if it and it['k'] == 'pseudo' else 'program'
             ctx.violation('%s:%s:%s:%s' % (PROP, name, 'refused' if r.status == 'refused' else 'raw:' + r.etype, 'c' if c else 'u'),
-                          'a program of documented pseudo-instructions is refused at %r: %s' % (it['text'][:50] if it else '?', str(r.exc).splitlines()[-1][:150]),
+                          'a program of documented pseudo-instructions is refused at %r: %s' % (it['text'][:50] if it else '?', kernel.errline(r.exc)[:150]),
                           driver, case, expected='accepted', observed=repr(r.exc)[:300])
             continue
         ctx.count('walked')
